@@ -16,7 +16,7 @@ ASSUMPTIONS = ["libz3 4.8 decides the equivalence queries (QF_AUFLIRA, tiny term
 
 
 def custom_run(tier, seed):
-    return hcommon.run_rc_property(ID, "h_mkterm", ["mk"], tier, seed, 10000, 150000)
+    return hcommon.run_rc_property(ID, "h_mkterm", ["mk"], tier, seed, 5000, 150000)
 
 
 def custom_replay(path):
